@@ -14,14 +14,16 @@ EmitOn == "OUT" \in DOMAIN IOEnv
 
 A == 97
 EACUTE == 233
+NBSP == 160          \* a non-ASCII White_Space character (the attribute scanner trims Unicode white space)
 Alpha == IF Mode = "value3" THEN { LT, SEMI, COMMA, QUOTE, BSL, EQ, SP, A, LF, EACUTE }
+         ELSE IF Mode = "value" THEN { LT, SEMI, COMMA, QUOTE, BSL, EQ, SP, A, NBSP, EACUTE }
          ELSE { LT, SEMI, COMMA, QUOTE, BSL, EQ, SP, A }
 Strs(n) == UNION { [1 .. k -> Alpha] : k \in 0 .. n }
 
 Rep5 == { << >>, << A, 49 >>, << 52, 48 >>, << A, COMMA, SEMI, SP >>, << QUOTE, BSL, A, BSL >> }
 
 Rep3 == { << >>, << A, COMMA, SEMI, SP >>, << QUOTE, BSL, A, BSL >> }
-\* sizes (multiplied out): value 2 targets x (1 + 148 + 148^2) x 2 nl = 88 k states; value3 (1 nl,
+\* sizes (multiplied out): value (10 letters, 111 values) 2 targets x (1 + 224 + 224^2) x 2 nl = 202 k states; value3 (1 nl,
 \* second attribute from Rep5) 2 x (1 + 2224 + 2224 x 12) = 58 k; struct 3 links x <= 2 attributes x 4
 \* choices: 2 x 21 = 42 per link, 42 + 42^2 + 42^3 = 76 k x 2 nl = 152 k; fault <= 2 links x <= 2
 \* attributes x 5 choices: 31 + 31^2 = 1 k x 2 nl x 49 faults = 97 k
